@@ -70,6 +70,15 @@ func (d *typeDictionary) findExternal(n Node, prefix, name string) (*Typedef, er
 	if td := d.find(root, name); td != nil {
 		return td, nil
 	}
+	// The top level of a module includes that of its submodules.
+	for _, in := range root.Include {
+		if in.Module == nil {
+			continue
+		}
+		if td := d.find(in.Module, name); td != nil {
+			return td, nil
+		}
+	}
 	if prefix != "" {
 		name = prefix + ":" + name
 	}
